@@ -714,7 +714,11 @@ class Parser(ExprParser):
         if self.have("REAL"):
             value = float(value)
         elif self.have("INTEGER"):
-            value = int(value)
+            if len(value) > 1 and value[0] == "0":
+                # C++ reads a leading 0 as an octal literal.
+                value = int(value, 8)
+            else:
+                value = int(value)
         elif self.have("DQUOTE"):
             value = value
         elif self.have("SQUOTE"):
@@ -969,10 +973,12 @@ class Ptr(Node):
             decl.append(" volatile")
 
     def __str__(self):
+        s = self.ptr
         if self.const:
-            return self.ptr + " const"
-        else:
-            return self.ptr
+            s += " const"
+        if self.volatile:
+            s += " volatile"
+        return s
 
 
 class Declarator(Node):
